@@ -7,6 +7,11 @@ Import ListNotations.
 
 Definition Tz (id : Z) (i : info) (ch : list rt) : rt := T (Z.to_nat id) i ch.
 
+(* compact node term of the cases: identity, data object, data_id, children
+   (nothing else of a node is read by the filter model or its observation) *)
+Definition Nd (id obj : Z) (d : did) (ch : list rt) : rt :=
+  T (Z.to_nat id) (I obj obj 0 false [] d None []) ch.
+
 Definition case08 := (forest * list (Z * raw) * option Z)%type.
 
 (* the predicate of a case: what it does on each node *)
